@@ -573,6 +573,11 @@ func (t *Tree) RerootMidPoint() error {
 			potentialedges = edges
 		}
 	}
+	// All tips are at distance 0 from each other: there is no longest path
+	// to take the middle of
+	if curlength == 0 {
+		return errors.New("cannot reroot at midpoint: all branch lengths are 0")
+	}
 	// Path potentialedges starts from tip 1:
 	// potentialedges[0].Right()
 	// And ends at tip 2:
